@@ -358,7 +358,14 @@ func getTagType(v reflect.Value) (byte, reflect.Value) {
 	case reflect.Array, reflect.Slice:
 		var elemType byte
 		if v.Len() > 0 {
-			elemType, _ = getTagType(v.Index(0))
+			var elem reflect.Value
+			elemType, elem = getTagType(v.Index(0))
+			if elem.IsValid() && elem.CanInterface() {
+				if _, ok := elem.Interface().(Marshaler); ok {
+					// Marshaler elements (RawMessage, dynbt.Value...) are never packed into typed arrays
+					return TagList, v
+				}
+			}
 		} else {
 			elemType = getTagTypeByType(v.Type().Elem())
 		}
